@@ -201,6 +201,7 @@ func TestC01WriterForms(t *testing.T) {
 			WriteMessage(m interface{ GetID() uint32 }) error
 		}
 		_ = wr(nil)
+		var wantPayloads [][]byte
 		run := func(name string) ([][]byte, error) {
 			w := &recWriter{}
 			var writeFrame func(frame.Frame) error
@@ -232,11 +233,16 @@ func TestC01WriterForms(t *testing.T) {
 				}
 				writeFrame, writeMsg = x.WriteFrame, func() error { return x.WriteMessage(hb) }
 			}
+			wantPayloads = wantPayloads[:0]
 			for i, o := range ops {
 				var err error
 				if o.msg {
+					// the application keeps one message value and updates it before every send
+					reflect.ValueOf(hb).Elem().FieldByName("CustomMode").SetUint(uint64(0x01020300 + i))
+					wantPayloads = append(wantPayloads, common.layouts[0].Encode(hb, v2))
 					err = writeMsg()
 				} else {
+					wantPayloads = append(wantPayloads, nil)
 					err = writeFrame(gen.ToLib(*o.fr))
 				}
 				if err != nil {
@@ -281,6 +287,9 @@ func TestC01WriterForms(t *testing.T) {
 				seq++
 				if p.Checksum != p.ChecksumFor(common.layouts[0].CRCExtra) {
 					fail("item %d: wrong checksum", i)
+				}
+				if !bytes.Equal(p.Payload, wantPayloads[i]) {
+					fail("item %d: the message value was updated before this send; payload on the wire %x, encoding of the value as sent %x", i, p.Payload, wantPayloads[i])
 				}
 				if key != nil {
 					if !p.Signed() || p.LinkID != link || p.Sig != p.SignatureFor(*key) {
